@@ -406,8 +406,16 @@ def execute(ch, cfg):
                           ("value-keys-out-of-operand-order" if got["keys"] != wk else "value-maps-an-operand-to-a-wrong-value")))
                     res.bad("C05.value", sh, "%s: keys %s expected %s" % (shape_of(root), [idx_of(leaves, e) for e in got["keys"]], [leaves.index(l) for l in want]))
                     return res
-                res.ev("C05.late")
+                # the value object's whole dictionary-like interface must tell the same story
                 v = got["res"][1]
+                api_ok = (all(l.ev in v for l in want) and all(same(l, v[l.ev]) for l in want)
+                          and [k for k in v] == wk and len(list(v.values())) == len(wk)
+                          and [k for k, _ in v.items()] == wk and v == v.todict()
+                          and all((l.ev in v) == (l in want) for l in flat))
+                if not api_ok:
+                    res.bad("C05.value", "value-object-interface-inconsistent-with-its-keys", "%s: keys %s" % (shape_of(root), [idx_of(leaves, e) for e in v.keys()]))
+                    return res
+                res.ev("C05.late")
                 if list(v.keys()) != wk:
                     res.bad("C05.late", "value-changed-after-the-condition-was-processed", shape_of(root))
                     return res
